@@ -46,7 +46,7 @@ def harnesses(ctx, pairs):
     return hs
 
 
-def cross_validate(ctx, base_path, var_path, label, kind="std"):
+def cross_validate(ctx, base_path, var_path, label, kind="std", mode="config", sample=64):
     """E6: pair the two traces chunk by chunk (same round-robin dealing) and let CrossCfg.tla compare them."""
     with open(base_path, "rb") as f:
         A0 = f.readlines()
@@ -59,7 +59,7 @@ def cross_validate(ctx, base_path, var_path, label, kind="std"):
         return 1
     # textually identical event pairs are identical events; TLC judges every pair that differs (is the difference one that
     # IEEE-754 leaves open / a recorded deviation?) plus a 1-in-64 sample of the identical ones
-    idx = [i for i in range(total) if A0[i] != B0[i] or i % 64 == 0]
+    idx = [i for i in range(total) if A0[i] != B0[i] or i % sample == 0]
     A = [A0[i] for i in idx]
     Bv = [B0[i] for i in idx]
     ctx.extra["crosscfg_pairs_identical_text"] = ctx.extra.get("crosscfg_pairs_identical_text", 0) + (total - sum(1 for i in idx if A0[i] != B0[i]))
@@ -77,7 +77,7 @@ def cross_validate(ctx, base_path, var_path, label, kind="std"):
 
     def one(j):
         pa, pb, i = j
-        return j, vlib.tlc("CrossCfg", env={"TRACE": pa, "TRACE_B": pb, "KIND": kind}, workers=1, timeout=900, scratch=ctx.scratch)
+        return j, vlib.tlc("CrossCfg", env={"TRACE": pa, "TRACE_B": pb, "KIND": kind, "MODE": mode}, workers=1, timeout=900, scratch=ctx.scratch)
     events = bad = 0
     for (pa, pb, i), r in vlib.pmap(one, jobs):
         s = r.printed("SUMMARY")
@@ -85,8 +85,9 @@ def cross_validate(ctx, base_path, var_path, label, kind="std"):
             rp = ctx.write_replay("crosscfg-fail-" + label, [], r.tail(30))
             ctx.violation("CrossCfg could not relate the %s trace to the baseline: %s" % (label, r.tail(3)), rp)
             continue
-        m = re.match(r'<<"SUMMARY", (\d+), (\d+)', s[-1])
+        m = re.match(r'<<"SUMMARY", (\d+), (\d+), (\d+), (\d+)', s[-1])
         events += int(m.group(1)); nb = int(m.group(2)); bad += nb
+        ctx.extra["crosscfg_pairs_outside_domain"] = ctx.extra.get("crosscfg_pairs_outside_domain", 0) + int(m.group(4))
         ctx.states += r.distinct; ctx.transitions += r.generated; ctx.traces += 1
         for kl in r.printed("KNOWN"):
             mk = re.match(r'<<"KNOWN", "([^"]+)", (\d+)', kl)
